@@ -7,7 +7,7 @@
    np.linalg.solve), and the HRR fractional-exponent law. *)
 From mathcomp Require Import all_ssreflect all_algebra.
 From NSpa Require Import Model.Vec Model.Hrr Model.Vtb Model.Power
-  Theory.SeqSum Theory.Conv Theory.MxBridge Theory.VtbLaws Theory.ElemLaws Theory.PowerLaws.
+  Theory.SeqSum Theory.Conv Theory.MxBridge Theory.VtbLaws Theory.ElemLaws Theory.PowerLaws Theory.Fourier.
 Import GRing.Theory.
 Local Open Scope ring_scope.
 
@@ -91,3 +91,24 @@ From Coq Require Import ZArith.
 Example C12_example_vtb_power :
   vtb_power [:: 1; 2; 3; 4]%Z false 3 = Ok (Scaled [:: 27; 59; 61; 133]%Z 4 1).
 Proof. by vm_compute. Qed.
+(* ---------------- HRR powers and unitarity in the Fourier domain ------------------------------ *)
+(* C, w as in C02: any commutative ring with w^d = 1 into which R embeds.  binding_power computes
+   irfft(rfft(v) ** exponent): for a natural exponent that spectrum is the spectrum of the n-fold
+   binding, and (C02) the spectrum determines the vector. *)
+Theorem C12_hrr_power_raises_each_spectral_coefficient :
+  forall (R C : comRingType) (iota : {rmorphism R -> C}) p (w : C),
+    w ^+ p.+1 = 1 ->
+    forall (a : seq R) n (k : 'I_p.+1), size a = p.+1 ->
+    spectrum iota w (hrr_pow_nat a n) k = spectrum iota w a k ^+ n.
+Proof. first [exact: spectrum_pow | by move=> *; exact: spectrum_pow | by intros; eapply spectrum_pow; eauto]. Qed.
+Print Assumptions C12_hrr_power_raises_each_spectral_coefficient.
+
+Theorem C12_hrr_unitary_has_unit_modulus_spectrum :
+  forall (R C : comRingType) (iota : {rmorphism R -> C}) p (w : C),
+    w ^+ p.+1 = 1 ->
+    forall (a : seq R) (k : 'I_p.+1), size a = p.+1 ->
+    hrr_bind_core a (hrr_invert a) = hrr_identity R p.+1 ->
+    spectrum iota w a k * spectrum iota w a (- k) = 1.
+Proof. first [exact: spectrum_unitary | by move=> *; exact: spectrum_unitary | by intros; eapply spectrum_unitary; eauto]. Qed.
+Print Assumptions C12_hrr_unitary_has_unit_modulus_spectrum.
+
